@@ -26,11 +26,14 @@ import (
 	"verif/sim"
 )
 
-const (
-	repoDir  = "/repo"
-	verifDir = "/verif"
-	modPath  = "github.com/New-JAMneration/JAM-Protocol"
+// repoDir / verifDir: the registered commands always run /verif against /repo; background exploration runs
+// (vp run --with-repo) point them at snapshots through VERIF_REPO_DIR / VERIF_DIR.
+var (
+	repoDir  = envOr("VERIF_REPO_DIR", "/repo")
+	verifDir = envOr("VERIF_DIR", "/verif")
 )
+
+const modPath = "github.com/New-JAMneration/JAM-Protocol"
 
 func fatal2(format string, a ...any) {
 	fmt.Fprintf(os.Stderr, "INFRA: "+format+"\n", a...)
